@@ -293,6 +293,12 @@ def monOp (op : String) (args : List String) : Option String :=
     | [balB, resB, balA, resA] =>
       some (if (balA : Int) - balB == (resA : Int) - resB then "ok" else "viol C04-reserves-vs-outflow")
     | _ => none
+  | "mon_route_quote" => do
+    -- C12: <SimulateSwapOperations return amount> <executed route's return amount> <pools pairwise distinct>
+    let (q, ts) ← pNat args
+    let (x, ts) ← pNat ts
+    let (distinct, _) ← pBit ts
+    some (if !distinct || q == x then "ok" else "viol C12-route-quote")
   | "mon_rev" => do
     -- C12 reverse quote: `ret` is what the implementation pays for quote + 1
     let (xs, _) ← pRepeat pNat 6 args
